@@ -511,6 +511,13 @@ def mutate(stdout, stderr, parser: ArgumentParser, args: Namespace):
         semantic_predicates=semantic_predicates,
     )
 
+    if args.min_mutations > args.max_mutations:
+        print(
+            f"isla {command}: error: --min-mutations must not exceed --max-mutations",
+            file=stderr,
+        )
+        sys.exit(USAGE_ERROR)
+
     try:
         mutated = solver.mutate(
             inp,
